@@ -460,7 +460,11 @@ def r_pass_dispatch(ck: Checker) -> None:
     # unflagged transformations
     allowed = {"preprocess", "postprocess", "exline_arithmetic", "deepcopy"}
     none_on = ck.interp(func, Pins.of(facts={f: False for f in flags}))
+    pvar = next((unparse(getattr(n, "target", None) or n.targets[0]) for n in find_nodes(func.node, lambda n: isinstance(n, (ast.Assign, ast.AnnAssign)) and isinstance(n.value, ast.Call) and unparse(n.value.func) == "preprocess")), "input_")  # type: ignore[attr-defined]
+    pipeline = {id(n.value) for n in find_nodes(func.node, lambda n: isinstance(n, (ast.Assign, ast.AnnAssign)) and isinstance(n.value, ast.Call)) if unparse(getattr(n, "target", None) or n.targets[0]) == pvar}  # type: ignore[attr-defined]
     for call in calls_in(func, lambda c: True):
+        if id(call) not in pipeline:
+            continue  # only a call whose result is bound can change what is emitted
         if none_on.reachable(call) and isinstance(call.func, ast.Name):
             name = call.func.id
             res = ck.prg.resolve_callee(func, call.func) or name
